@@ -37,10 +37,10 @@ add('C11', 'ENUM', 'exploration',
     'bert_e.lib.jira.JiraIssue replaced by a table-driven fake; expected versions given (C09 checks their computation).',
     'exhaustive input enumeration vs reference oracle', 'DESIGN.md section 5 C11')
 
-add('C17', 'ENUM', 'exploration',
-    '(a) AggregatedWorkflowRuns.state is evaluated on every ordered list of workflow runs of the bounded alphabet (5.8M lists quick) and checked against the soundness clause of the statement (SUCCESSFUL only if some head branch has all considered workflows green; never when there is no run).',
-    'Run dictionaries have the shape used by the pinned unit tests and are loaded with _validate=False; best run per workflow id, any tie-break accepted. Part (b) (status cache stickiness) is added by module C17b when present.',
-    'exhaustive input enumeration vs soundness oracle', 'DESIGN.md section 5 C17')
+add('C17', 'ENUM+BFS', 'model_checking',
+    '(a) AggregatedWorkflowRuns.state on every ordered list of workflow runs of the bounded alphabet vs the soundness clause of the statement; (b) explicit-state BFS over the real get_build_status (GitHub and Bitbucket), the real webhook handlers and the real LRUCache with a scripted host: state = (host table, cache contents in LRU order, verdicts seen green); oracle: a verdict seen SUCCESSFUL stays SUCCESSFUL while it is in the cache, any other poll answers what the host currently reports; the LRU itself is compared with a list-based reference on every sequence of <= 6 operations.',
+    '(a) run dictionaries shaped like the pinned unit tests; (b) every transition rebuilds the real objects from the canonical state and calls the real code (no separate model to drift); 2 commits x 2 keys x 3 states, cache sizes 1 and 2, depth 4 (quick) / 5.',
+    'exhaustive input enumeration + explicit-state BFS over the real implementation', 'DESIGN.md section 5 C17')
 
 add('C03', 'SYS', 'model_checking',
     'Histories of two pull requests in queue and skip-queue mode, with CI verdicts reported per branch / all at once / on superseded commits in any order, are executed on the real code; at every movement of a destination branch the new tip is looked up in the host build-status table (force merge and bypassed direct merges exempted as the statement says).',
@@ -98,3 +98,8 @@ add('C14', 'ENUM', 'exploration',
     'The full matrix: every API rule registered in app.url_map x 5 HTTP methods x session {none, user, admin} x valid / invalid parameters; every management form x session x data x CSRF token with the form-to-API call looped back into the application; both webhook routes x credentials x repository identity x handled / unhandled events on a Bitbucket- and a GitHub-configured instance; oracle table from the statement (job iff authorised and valid, error status and empty queue otherwise, job class / user / settings exactly the validated parameters).',
     'sessions set as the pinned test_server does; GitHub client stubbed for the two events that fetch data.',
     'exhaustive matrix enumeration vs oracle table', 'DESIGN.md section 5 C14')
+
+add('C05', 'ENUM', 'model_checking',
+    'For every configuration (cascade x destination of each queued pull request, in order of entry) the queue is built on a real repository by real Bert-E and its commit graph extracted; the real QueueCollection (build, validate, mergeable_prs, mergeable_queues) then runs over a FakeRepo answering git from that graph for every assignment of build statuses to every queue commit (and force merge), and is compared with the longest-all-green-prefix reference of the statement; sampled assignments and every disagreement are replayed through handle_merge_queues on the real repository (conformance).',
+    'the model of git is the extracted graph + rev-parse / is-ancestor / branch listing re-implemented over it, validated by the replays (traces_validated_against_impl).',
+    'exhaustive enumeration over an extracted model + conformance replay on the implementation', 'DESIGN.md section 5 C05')
